@@ -2425,9 +2425,11 @@ def rewrite_mul_sigmoid_as_swish_ir(graph: ir.Graph) -> None:
             )
             graph.remove(node)
             remaining_nodes = list(graph)
-            if not _value_is_graph_output(graph, sigmoid_out) and not _consumer_nodes(
-                remaining_nodes, sigmoid_out
-            ):
+            # The Sigmoid may go only when nothing observes it any more: no node
+            # consumer, not a graph output, not captured by a nested body.
+            if not _value_escapes(
+                graph, remaining_nodes, sigmoid_out
+            ) and not _consumer_nodes(remaining_nodes, sigmoid_out):
                 graph.remove(sigmoid_node)
             changed = True
             break
